@@ -40,6 +40,17 @@ fn patterns(secret: &[u8]) -> Vec<(String, Vec<u8>)> {
 		out.push(("hex-colon".into(), hxc.into_bytes()));
 		let dec: String = w.iter().map(|b| b.to_string()).collect::<Vec<_>>().join(", ");
 		out.push(("decimal-list".into(), dec.into_bytes()));
+		// lists of octets as formatters print them: {:02x?} / {:x?} / {:#x?} items, with ", ", ","
+		// or " " between them, either case
+		for (fname, item) in [("hex-list", (|b: &u8| format!("{:02x}", b)) as fn(&u8) -> String), ("hex-list-short", |b: &u8| format!("{:x}", b)), ("hex-list-0x", |b: &u8| format!("0x{:02x}", b)), ("hex-list-0x-short", |b: &u8| format!("{:#x}", b))] {
+			for sep in [", ", ",", " "] {
+				let l: String = w.iter().map(item).collect::<Vec<_>>().join(sep);
+				out.push((fname.to_string(), l.clone().into_bytes()));
+				out.push((format!("{}-upper", fname), l.to_uppercase().replace("0X", "0x").into_bytes()));
+			}
+		}
+		let dec2: String = w.iter().map(|b| b.to_string()).collect::<Vec<_>>().join(",");
+		out.push(("decimal-list".into(), dec2.into_bytes()));
 		for pad in 0..3 {
 			let mut v = vec![0u8; pad];
 			v.extend_from_slice(w);
@@ -87,6 +98,11 @@ fn secrets(rsa_fixture: &[u8]) -> Vec<Secret> {
 	];
 	v.push(Secret { name: "rsaSha256".into(), parts, pkcs8: rsa_fixture.to_vec() });
 	v
+}
+
+/// the Debug rendering of a value a reader returned for a buffer that also held a key
+fn errors_ok(s: &mut Suite, sec: &Secret, what: &str, text: String) {
+	scan(s, sec, &format!("accepted:{}", what), text.as_bytes());
 }
 
 fn scan(s: &mut Suite, sec: &Secret, what: &str, output: &[u8]) {
@@ -411,6 +427,61 @@ pub fn run(ctx: &mut Ctx) -> Report {
 		}
 		if let Err(e) = CertificateParams::from_ca_cert_der(&sec.pkcs8.clone().into()) {
 			push("parse-key-der-as-ca-cert", e);
+		}
+		// the texts again as *bytes* to the loaders that take DER (a file read into a buffer and
+		// handed to the wrong door), intact and malformed
+		for (name, text) in std::iter::once(("intact".to_string(), key_pem.clone())).chain(all_malformed.iter().cloned()) {
+			let b = text.as_bytes();
+			if let Err(e) = KeyPair::try_from(b) {
+				push(&format!("pem-bytes:{}:try_from(&[u8])", name), e);
+			}
+			if let Err(e) = KeyPair::try_from(b.to_vec()) {
+				push(&format!("pem-bytes:{}:try_from(Vec<u8>)", name), e);
+			}
+			if let Ok(pk) = rustls_pki_types::PrivateKeyDer::try_from(b.to_vec()) {
+				if let Err(e) = KeyPair::try_from(&pk) {
+					push(&format!("pem-bytes:{}:try_from(&PrivateKeyDer)", name), e);
+				}
+			}
+			for alg in keys::build_algs().into_iter().take(2) {
+				if let Err(e) = KeyPair::from_pkcs8_der_and_sign_algo(&rustls_pki_types::PrivatePkcs8KeyDer::from(b.to_vec()), alg) {
+					push(&format!("pem-bytes:{}:from_pkcs8_der_and_sign_algo", name), e);
+				}
+			}
+			if let Err(e) = SubjectPublicKeyInfo::from_der(b) {
+				push(&format!("pem-bytes:{}:spki_from_der", name), e);
+			}
+		}
+		// a public artefact with the private key document right behind it in the same buffer (a
+		// file that holds both, read whole): what a reader says about the octets it did not use
+		{
+			let mut p = PCert::default_like();
+			p.ca = Ca::Ca(None);
+			let cert = p.real().and_then(|r| r.self_signed(&key).ok());
+			let csr = PCert::default_like().real().and_then(|r| r.serialize_request(&key).ok());
+			let mut fronts: Vec<(&str, Vec<u8>)> = vec![("spki", key.public_key_der())];
+			if let Some(c) = &cert {
+				fronts.push(("certificate", c.der().to_vec()));
+			}
+			if let Some(c) = &csr {
+				fronts.push(("request", c.der().to_vec()));
+			}
+			for (front, bytes) in fronts {
+				let mut both = bytes.clone();
+				both.extend_from_slice(&sec.pkcs8);
+				match SubjectPublicKeyInfo::from_der(&both) {
+					Err(e) => push(&format!("{}-then-key:spki_from_der", front), e),
+					Ok(v) => errors_ok(&mut s, &sec, &format!("{}-then-key:spki_from_der", front), format!("{:?}", v.der_bytes())),
+				}
+				match CertificateParams::from_ca_cert_der(&both.clone().into()) {
+					Err(e) => push(&format!("{}-then-key:from_ca_cert_der", front), e),
+					Ok(v) => errors_ok(&mut s, &sec, &format!("{}-then-key:from_ca_cert_der", front), format!("{:?}", v)),
+				}
+				match CertificateSigningRequestParams::from_der(&both.clone().into()) {
+					Err(e) => push(&format!("{}-then-key:csr_from_der", front), e),
+					Ok(v) => errors_ok(&mut s, &sec, &format!("{}-then-key:csr_from_der", front), format!("{:?}", v.params)),
+				}
+			}
 		}
 		drop(push);
 		s.rep.add("error_texts_scanned", errors.len() as u64);
